@@ -6,7 +6,7 @@ from . import inv, plt, runner
 from .model import short
 from .rules_c09 import site_ord
 from .rules_common import LP, each_final, ep, get, opt_payload
-from .values import BoolV, CollV, EnumV, NumV, OpaqueV, RefV, StrV, StructV, symname
+from .values import BoolV, CollV, EnumV, NumV, OpaqueV, RefV, StrV, StructV, symname, V
 
 ROW_MAP = 'std::collections::HashMap<u32, std::collections::HashMap<u32, screen::CharOpts>>'
 CELL_MAP = 'std::collections::HashMap<u32, screen::CharOpts>'
@@ -234,6 +234,44 @@ def is_default_char(eng, st, v):
         if not (isinstance(r, StructV) and same_value(eng, s2, v, r)):
             return False, '%r (built in %s) differs from %r' % (v, pv[1] if isinstance(pv, tuple) and len(pv) > 1 else pv, r)
     return True, ''
+
+
+def is_materialising_insert(eng, e):
+    """a snapshot event `map.insert` on the grid that only materialises: the key is known to be absent
+    (`if !m.contains_key(&k) { m.insert(k, blank) }`) and the value is what absence means (an empty
+    row / default_char() in that state) - the same thing as `entry(k).or_insert(blank)`"""
+    ev = e['ev']
+    if ev[0] != 'map.insert' or not e['st'].vn.get('ins-absent'):
+        return False
+    lvl = level_of(e)
+    v = ev[3]
+    if lvl == 'row':
+        return isinstance(v, CollV) and v.known == ()
+    if lvl == 'cell':
+        return is_default_char(eng, e['st'], v)[0]
+    return False
+
+
+def materialising_indices(eng, st, evs):
+    """indices in an event list of `map.insert`s on the grid that only materialise (see
+    is_materialising_insert): preceded by the engine's note that the key was known to be absent, and
+    storing the value absence stands for"""
+    out = set()
+    for i, ev in enumerate(evs):
+        if ev[0] != 'map.insert' or i == 0:
+            continue
+        p = evs[i - 1]
+        if not (p[0] == 'note' and p[1] == 'absent-before-insert' and p[2] == ev[1] and isinstance(p[3], V) and isinstance(ev[2], V) and p[3].key() == ev[2].key()):
+            continue
+        v = ev[3]
+        if not (ev[1] and ev[1][0] == 'S' and len(ev[1]) >= 2 and ev[1][1] == 'buffer'):
+            continue
+        if len(ev[1]) == 2:
+            if isinstance(v, CollV) and v.known == ():
+                out.add(i)
+        elif is_default_char(eng, st, v)[0]:
+            out.add(i)
+    return out
 
 
 def is_cursor_attr(eng, st, v):
@@ -600,13 +638,30 @@ def range_covers(eng, st, d, lo_d, hi_d):
     return (ok1 and ok2), (w1 or w2)
 
 
+def collected_range(v):
+    """(lo, hi, incl, adaptor ops) when v is a collection collected from a range iterator"""
+    pv = getattr(v, 'prov', None)
+    if isinstance(v, CollV) and isinstance(pv, tuple) and pv and pv[0] == 'collect-range' and len(pv) >= 5 \
+            and isinstance(pv[1], NumV) and isinstance(pv[2], NumV):
+        return pv[1], pv[2], bool(pv[3]), tuple(pv[4])
+    return None
+
+
 def dirty_marks(ctx, sr, evs):
     """dirty marks on an event list: ('one', row) / ('range', lo, hi, incl); a loop that inserts every
     element of a range counts as the range"""
     marks = []
     rl = None
     for ev in evs:
-        if ev[0] == 'set.insert' and ev[1] == ('S', 'dirty'):
+        if ev[0] == 'coll.clear' and ev[1] == ('S', 'dirty'):
+            marks = []          # what was marked before is gone
+        elif ev[0] == 'w' and ev[1] == ('dirty',):
+            # the whole set is replaced: `dirty = (a..b).collect()` marks exactly that range
+            marks = []
+            r = collected_range(ev[2])
+            if r is not None and not r[3]:
+                marks.append(('range', r[0], r[1], r[2]))
+        elif ev[0] == 'set.insert' and ev[1] == ('S', 'dirty'):
             marks.append(('one', ev[2]))
         elif ev[0] == 'set.extend' and ev[1] == ('S', 'dirty') and isinstance(ev[2], tuple) and ev[2][0] == 'range':
             marks.append(('range', ev[2][1], ev[2][2], bool(ev[2][3])))
